@@ -65,8 +65,17 @@ struct ChunkReader {
     pos: usize,
     chunk: usize,
 }
+/// bytes of a destination slice that a reader was handed and that were not blank: the ring buffer must not lend
+/// never-written memory (fresh heap memory is poisoned with 0xA5 by the harness allocator while this engine runs) or
+/// stale contents to a caller-supplied `Read`, which is free to read its destination
+static READER_SAW_DIRTY: std::sync::atomic::AtomicUsize = std::sync::atomic::AtomicUsize::new(0);
+
 impl Read for ChunkReader {
     fn read(&mut self, buf: &mut [u8]) -> std::io::Result<usize> {
+        let dirty = buf.iter().filter(|b| **b != 0).count();
+        if dirty > 0 {
+            READER_SAW_DIRTY.fetch_add(dirty, std::sync::atomic::Ordering::Relaxed);
+        }
         let n = buf.len().min(self.chunk).min(self.data.len() - self.pos);
         buf[..n].copy_from_slice(&self.data[self.pos..self.pos + n]);
         self.pos += n;
@@ -844,6 +853,11 @@ impl Exec {
             }
         }
 
+        let dirty = READER_SAW_DIRTY.swap(0, std::sync::atomic::Ordering::Relaxed);
+        run.oracle_checks += 1;
+        if dirty > 0 {
+            fails.push(("reader_handed_unblanked_memory", format!("extend_from_reader handed the reader a destination slice with {} bytes that were never written / still held old contents", dirty)));
+        }
         Self::report(run, fails, &self.rseq);
         ans
     }
@@ -1114,6 +1128,11 @@ impl Exec {
             self.bump("repeat_in_chunks_multi");
         }
 
+        let dirty = READER_SAW_DIRTY.swap(0, std::sync::atomic::Ordering::Relaxed);
+        run.oracle_checks += 1;
+        if dirty > 0 {
+            fails.push(("reader_handed_unblanked_memory", format!("extend_from_reader handed the reader a destination slice with {} bytes that were never written / still held old contents", dirty)));
+        }
         Self::report(run, fails, &self.dseq);
         format!("ok {} {} {}{}", len, mtrace, ctrace, extra_s)
     }
@@ -1671,6 +1690,7 @@ impl Gen<'_> {
 static OUT_DIR: std::sync::OnceLock<String> = std::sync::OnceLock::new();
 
 pub fn run(opts: &Opts) -> Run {
+    crate::alloc_count::POISON.store(true, std::sync::atomic::Ordering::Relaxed);
     let _ = OUT_DIR.set(opts.out.clone());
     let mut run = Run::new("ring");
     let thorough = opts.thorough;
